@@ -101,6 +101,9 @@ func corpus() []*history {
 		// CSV output mode
 		hist(false, oMode("csv"), oSetLine("a b c"), oSet(n(2), "x,y"), oDump(), oSet(n(1), "q\"r"), oDump(), oSet(n(3), " lead"), oDump(), oSet(n(4), "\\."), oDump(), oSetNF(n(0)), oDump()),
 		hist(false, oMode("tsv"), oSetLine("a b"), oSet(n(2), "t\tu"), oDump(), oMode(""), oSet(n(1), "z"), oDump(), oMode("csv separator=;"), oSet(n(3), "s;t\nu"), oDump()),
+		// G08-2 (fixed): in CSV output mode a record of exactly one empty field is rebuilt as `""` (past false alarm of this oracle)
+		hist(false, oMode("csv"), oSetLine(""), oSetNF(n(1)), oDump(), oSetNF(n(0)), oDump(), oSet(n(1), ""), oDump(), oSet(n(2), ""), oDump()),
+		hist(false, oMode("tsv"), oSetLine(""), oSetLine(""), oSetNFStr("\t1 1", n(1)), oMode("csv separator=;"), oDump()),
 		hist(false, oMode("bogus")),
 		// separators: tab, multi-byte character, stray byte, empty, non-compiling
 		hist(false, oFS("\t"), oSetLine("a b\tc\t\td"), oDump()),
